@@ -84,6 +84,47 @@ def assertion_cases():
     return out
 
 
+def framework_cases():
+    """the client lookup of the Flask / Django integrations fails (a database that is down, a driver error): the failure surfaces, whatever its exception class"""
+    out = []
+    for fw in ("django", "flask"):
+        for ep in ("token", "authorize", "revocation"):
+            for ft in (None, "ValueError", "KeyError", "OSError", "LookupError", "DatabaseError", "TypeError", "AttributeError"):
+                out.append({"world": "framework", "fw": fw, "ep": ep, "fault_type": ft, "cfg": {}, "ops": []})
+    return out
+
+
+def impl_framework(c):
+    import memserver as ms
+    from memserver import Req, Client
+    ms.install_clock()
+    store, srv, rp = ms.build(oidc=False, framework=c["fw"])
+    store.clients["c1"] = Client("c1", "s1", ["https://c1/cb"], "a b", ms.ALL_GRANT_TYPES, ms.ALL_RESPONSE_TYPES)
+    hdr = ms.basic("c1", "s1")
+    def call():
+        if c["ep"] == "token":
+            return ms.fw_call(srv, Req("POST", ms.TOKEN_URL, dict(grant_type="client_credentials", scope="a"), hdr), "create_token_response")
+        if c["ep"] == "authorize":
+            return ms.fw_call(srv, Req("POST", "https://as.example/authorize", dict(response_type="code", client_id="c1", scope="a", state="s")), "create_authorization_response",
+                              grant_user=store.users[1])
+        return ms.fw_call(srv, Req("POST", "https://as.example/revoke", dict(token="nope"), hdr), "create_endpoint_response", "revocation")
+    out = {}
+    store.trace, store.fail_at, store.fault_type = [], 0, c["fault_type"]
+    try:
+        r = call()
+        out["first"] = {"status": r.status, "error": (r.body if isinstance(r.body, dict) else {}).get("error"), "location": dict(r.headers).get("Location", "")[:60]}
+    except Exception as e:
+        out["first"] = {"surfaced": type(e).__name__}
+    out["callbacks"] = list(store.trace)
+    store.fail_at = None
+    try:
+        r = call()
+        out["retry"] = {"status": r.status, "error": (r.body if isinstance(r.body, dict) else {}).get("error")}
+    except Exception as e:
+        out["retry"] = {"surfaced": type(e).__name__}
+    return out
+
+
 def impl_assertion(c):
     import json
     import memserver as ms
@@ -131,7 +172,7 @@ def impl_assertion(c):
 
 
 def cases(rng, tier):
-    out = scenario_cases(pairs=True) + assertion_cases()
+    out = scenario_cases(pairs=True) + assertion_cases() + framework_cases()
     n, ln = (60, 12) if tier == "quick" else (1500, 28)
     for i in range(n):
         h = H.gen_history(rng, ln, "code" if i % 2 else "token", pkce_required=(i % 5 == 0), fault_p=0.35)
@@ -142,6 +183,8 @@ def cases(rng, tier):
 
 
 def impl(c):
+    if c["world"] == "framework":
+        return impl_framework(c)
     if c["world"] == "assertion":
         return impl_assertion(c)
     if c["world"] in ("oauth2", "oidc"):
@@ -162,7 +205,7 @@ def impl(c):
 
 
 def model_line(c):
-    if c["world"] == "assertion":
+    if c["world"] in ("assertion", "framework"):
         return None
     if c["world"] == "oidc" or any(op["op"] == "implicit" for op in c["ops"]):
         return None
@@ -170,7 +213,7 @@ def model_line(c):
 
 
 def project(c, out):
-    if c["world"] == "assertion":
+    if c["world"] in ("assertion", "framework"):
         return out
     outs = []
     for o in out["outs"]:
@@ -209,6 +252,15 @@ def oracle(c, out):
     v = []
     def bad(what, **sig):
         v.append((what, dict(sig, world=c["world"])))
+    if c["world"] == "framework":
+        if out["callbacks"][:1] != ["query_client"]:
+            bad(f"[{c['fw']}] {c['ep']} request: the first storage callback is {out['callbacks'][:1]}, expected the client lookup", kind="trace-changed", op=c["ep"])
+        elif "surfaced" not in out["first"]:
+            bad(f"[{c['fw']} integration] {c['ep']} request, {c['fault_type'] or 'storage'} failure of the client lookup: the failure did not surface, the caller was answered {out['first']}",
+                kind="fault-swallowed", op=c["ep"], fw=c["fw"])
+        if "surfaced" in out["retry"] or out["retry"].get("error") in ("invalid_client",):
+            bad(f"[{c['fw']} integration] {c['ep']} request repeated after the fault cleared: {out['retry']}", kind="retry-differs", op=c["ep"], fw=c["fw"])
+        return v
     if c["world"] == "assertion":
         where = f"{c['grant']} request authenticated with a client assertion, {c['fault_type'] or 'storage'} fault at integrator callback #{c['k']} ({(out['callbacks'] + ['-'])[min(c['k'], len(out['callbacks']) - 1)] if out['callbacks'] else '-'})"
         if out["fault_hit"]:
@@ -273,6 +325,8 @@ def oracle(c, out):
 
 
 def classify(c, out):
+    if c["world"] == "framework":
+        return f"framework/{c['fw']}/{c['ep']}"
     if c["world"] == "assertion":
         return f"assertion/{c['grant']}/" + ("fault" if out["fault_hit"] else "nofault")
     if c.get("scenario"):
@@ -282,6 +336,8 @@ def classify(c, out):
 
 
 def nontrivial(c, out):
+    if c["world"] == "framework":
+        return [c["fw"], c["ep"], c["fault_type"]]
     if c["world"] == "assertion":
         return [c["grant"], c["k"], c["fault_type"]]
     return [(op["op"], op.get("fault"), tuple(op.get("done", ()))) for op in c["ops"]]
